@@ -19,3 +19,8 @@ def run(ck):
     pipeline.store_pipeline(ck, "C05.R4", want_bounds=False)
     pipeline.factor_rule(ck, "C01.R3")
     carriers.threshold_everywhere(ck, "C18.R1")
+    from . import routes, fresh, flags
+    routes.carrier_types(ck, "C01.R6")
+    fresh.constructor_state(ck, "C20.R2")              # "stored unchanged with no flag": no inherited flags
+    roles = flags.handler_roles_quiet(ck.prog)
+    pipeline.overflow_dispatch(ck, "C02.R6", "C03.R2", roles)   # monotone under saturate: the clamp is a clamp
